@@ -38,6 +38,8 @@ DUPS = {("ulib", "ulib_extra"): ["Shared"], ("ulib", "ulibx"): ["Alpha"], ("upkg
         ("updup",): ["Shared"], ("updup.a", "updup.b"): ["Shared"], ("mpilot.libraries.eems",): ["EEMSRead", "EEMSWrite"], ("upkg", "upkg_one"): ["PkgOne"],
         ("mpilot.libraries.eems.basic", "usub"): ["Sum"], ("updup.a", "updup.c"): ["Shared"]}
 MODEL = "A = Alpha()\nB = Shared()"
+EXPECTED_NAMES = {"ulib": ["Alpha", "Shared", "AlphaTwo"], "ulib_extra": ["Beta", "Shared"], "ulibx": ["Gamma", "Alpha"], "other": ["Delta", "Not", "Max"], "upkg_one": ["Underscore", "PkgOne"],
+                  "upkgzone": ["Zed"], "updup.a": ["Shared", "OnlyA"], "upkg.two": ["PkgTwo"], "upkg.one": ["PkgOne"], "upkg.named": ["Scale"]}
 
 
 def gen_history(rng):
@@ -139,6 +141,8 @@ def run_case(ctx, case):
             # importable from nowhere on the module search path: requesting it cannot succeed
             if ref["outcome"] not in ("ModuleNotFoundError", "ImportError"):
                 ctx.fail("clean-room:library-outside-the-module-search-path:%s" % ref["outcome"], {"probe": probe})
+        elif ref["outcome"] == "ok" and (ref.get("cli") or {}).get("-l canopy", [None, None, None, None])[3] != ["canopy.Cover"]:
+            ctx.fail("command-line-tool:library-named-with-l-is-not-the-one-used", {"probe": probe, "got": (ref.get("cli") or {}).get("-l canopy")})
         elif ref["outcome"] != "ok":
             ctx.fail("clean-room:disjoint-libraries-rejected:%s" % ref["outcome"], {"probe": probe, "detail": ref})
         else:
@@ -159,6 +163,17 @@ def run_case(ctx, case):
                 if form.startswith("typo-") and not v.startswith("CommandDoesNotExist:"):
                     ctx.fail("command-file-lookup:misspelt-name:%s" % v.split(":")[0], {"probe": probe, "form": form, "got": v[:200]})
                     break
+            for form, v in lk.items():
+                if form.startswith("api-") and not v.startswith("added:"):
+                    ctx.fail("api:command-class-imported-from-a-requested-library-refused:%s" % v, {"probe": probe, "form": form})
+                    break
+            # every command a requested harness library defines is there
+            for libname, names in EXPECTED_NAMES.items():
+                if libname in probe:
+                    lost = [n for n in names if n not in ref["library"] or ref["library"][n]["module"] != libname]
+                    if lost:
+                        ctx.fail("clean-room:command-of-a-requested-library-not-available", {"probe": probe, "library": libname, "missing": lost})
+                        break
             # names resolve to the requested libraries only
             for name, e in ref["library"].items():
                 if not any(e["module"] == lib or e["module"].startswith(lib + ".") for lib in probe):
